@@ -80,7 +80,7 @@ func c05Shapes() []c05Shape {
 }
 
 // c05Wire renders the response as HTTP/1.x wire bytes.
-func c05Wire(status int, shape c05Shape, framing string, body []byte, date string, tok string) []byte {
+func c05Wire(status int, shape c05Shape, framing string, body []byte, date string, tok string, ccv string) []byte {
 	var b bytes.Buffer
 	proto := "HTTP/1.1"
 	if framing == "http/1.0" {
@@ -98,7 +98,7 @@ func c05Wire(status int, shape c05Shape, framing string, body []byte, date strin
 	for _, kv := range shape.h {
 		fmt.Fprintf(&b, "%s: %s\r\n", kv[0], kv[1])
 	}
-	fmt.Fprintf(&b, "Cache-Control: max-age=1000\r\nX-Tok: %s\r\n", tok)
+	fmt.Fprintf(&b, "Cache-Control: %s\r\nX-Tok: %s\r\n", ccv, tok)
 	if shape.name != "no Date" {
 		fmt.Fprintf(&b, "Date: %s\r\n", date)
 	}
@@ -150,7 +150,11 @@ func runC05(x *mc.X) {
 	si := x.Choose("header-shape", len(shapes))
 	x.Trace[len(x.Trace)-1].Desc = shapes[si].name
 	status := mc.Pick(x, "status", []int{200, 203, 204, 301, 404, 410})
-	backend := mc.Pick(x, "backend", []string{"rec", "fscache", "fscache-enc"})
+	backend := mc.Pick(x, "backend", []string{"rec", "memcache", "fscache", "fscache-enc"})
+	serve := "hit"
+	if framing == "chunked+trailers" || framing == "close-delimited" || framing == "content-length" {
+		serve = mc.Pick(x, "served-as", []string{"hit", "stale-while-revalidate"}) // the SWR path hands out a copy
+	}
 	body := bodies[bi].data
 	if status == 204 && (len(body) > 0 || framing != "content-length") {
 		x.Skip()
@@ -161,6 +165,7 @@ func runC05(x *mc.X) {
 
 	var originHdr http.Header
 	var originBody []byte
+	originTrailer := false
 	phase, curTok := "first", "tokA"
 	answerFn(w, func(o *world.Origin, c *world.Call) (*http.Response, error) {
 		if phase != "replace" && (c.Header.Get("If-None-Match") != "" || c.Header.Get("If-Modified-Since") != "") {
@@ -174,7 +179,11 @@ func runC05(x *mc.X) {
 				body = []byte{}
 			}
 		}
-		wire := c05Wire(status, shape, framing, body, httpDate(c.At), curTok)
+		ccv := "max-age=1000"
+		if serve != "hit" {
+			ccv = "max-age=5, stale-while-revalidate=100000"
+		}
+		wire := c05Wire(status, shape, framing, body, httpDate(c.At), curTok, ccv)
 		resp, err := http.ReadResponse(bufio.NewReader(bytes.NewReader(wire)), c.Req)
 		if err != nil {
 			panic("harness: origin wire does not parse: " + err.Error())
@@ -188,8 +197,11 @@ func runC05(x *mc.X) {
 			resp.Close = false
 			resp.Header.Del("Content-Encoding")
 		}
-		originHdr = resp.Header.Clone()
-		originBody = body
+		if phase != "swr" { // the background refresh must not move the expectation for the copy already handed out
+			originHdr = resp.Header.Clone()
+			originBody = body
+			originTrailer = framing == "chunked+trailers"
+		}
 		return resp, nil
 	})
 	o1 := get(w, U)
@@ -221,6 +233,9 @@ func runC05(x *mc.X) {
 		if o.HdrTok != curTok || len(o.Calls) != 0 {
 			x.Note(what + ": not a hit")
 			return
+		}
+		if originTrailer && o.Trailer.Get("X-Trail") != "t1" {
+			x.Failf("trailer field lost on a response served from the store ("+o.CacheStatus+")", "%s: origin sent trailer X-Trail: t1, the served response has trailer %v", what, o.Trailer)
 		}
 		x.Nontrivial("hit/" + framing + "/" + shape.name + "/" + backend)
 		if o.Status != status {
@@ -282,6 +297,19 @@ func runC05(x *mc.X) {
 				}
 			}
 		}
+	}
+	if serve != "hit" {
+		world.Advance(secs(10))
+		phase = "swr"
+		o2 := get(w, U)
+		logObs(x, "GET (stale, served under stale-while-revalidate)", o2)
+		if o2.Err == nil && o2.Panic == nil && o2.CacheStatus == "STALE" && o2.HdrTok == "tokA" {
+			o2.Calls = nil
+			checkHit(o2, "stale-while-revalidate response", false)
+		}
+		checkStoreNoHop()
+		x.Sample(map[string]any{"body": bodies[bi].name, "framing": framing, "header_shape": shape.name, "status": status, "backend": backend, "served_as": serve, "observed": o2.String()})
+		return
 	}
 	world.Advance(secs(5))
 	o2 := get(w, U)
